@@ -19,7 +19,9 @@ CONSTANTS NAlpha,     \* size of the alphabet; index EqIdx is "="
           EqIdx,
           MaxLen,     \* maximal length of one argument
           MaxArgs,    \* maximal number of arguments
-          PairLen     \* maximal length of each argument when MaxArgs > 1
+          PairLen,    \* maximal length of each argument when MaxArgs > 1
+          PairFirst,  \* first characters of the first argument of a pair (sharding of the enumeration)
+          PairsOnly   \* TRUE: only the two-argument configurations (the other shards of a sharded enumeration)
 
 VARIABLES cfg, exp
 
@@ -42,8 +44,12 @@ InitTarget(arg, exists) ==
                 [] arg = "ext"  -> "Taskfile.yaml"
   IN [path |-> path, code |-> IF exists THEN 101 ELSE 0, overwritten |-> FALSE]
 
-Cfgs == {[k |-> "argv", argv |-> <<s>>] : s \in Strs(MaxLen) \ {<<>>}}
-        \cup (IF MaxArgs >= 2 THEN {[k |-> "argv", argv |-> <<s, t>>] : s \in Strs(PairLen) \ {<<>>}, t \in Strs(PairLen) \ {<<>>}} ELSE {})
+Pairs == IF MaxArgs >= 2
+         THEN {[k |-> "argv", argv |-> <<s, t>>] : s \in {u \in Strs(PairLen) \ {<<>>} : u[1] \in PairFirst}, t \in Strs(PairLen) \ {<<>>}}
+         ELSE {}
+Cfgs == IF PairsOnly THEN Pairs ELSE
+        {[k |-> "argv", argv |-> <<s>>] : s \in Strs(MaxLen) \ {<<>>}}
+        \cup Pairs
         \cup {[k |-> "quote", v |-> s] : s \in Strs(MaxLen) \ {<<>>}}
         \cup {[k |-> "split", s |-> <<1, EqIdx>> \o v] : v \in Strs(MaxLen)}
         \cup {[k |-> "init", arg |-> a, exists |-> e] : a \in {"none", "dir", "file", "ext"}, e \in BOOLEAN}
